@@ -18,7 +18,7 @@ NUMBER_POOL = [0, -0.0, 0.0, False, 1, 1.0, True, 2, 2.0]
 TEXT_POOL = ['A', 'a', 'B', '0', '1', 'AB', 'L' * 128, 'M' * 200]      # (long ones: 1- vs 2-byte length prefixes)
 NAME_POOL = ['N1', 'N2', 'SAME']
 META = ('zone', 'parameter', 'equipment', 'comment', 'axis', 'computation', 'well_reference_point', 'message',
-        'calibration_coefficient', 'tool')
+        'calibration_coefficient', 'tool', 'long_name')
 
 
 def slot_profile(source):
@@ -29,11 +29,40 @@ def slot_profile(source):
                    named_sets=True)
 
 
+def other_kind_value(kind, cur, ops, j):
+    """A value of another kind than `cur` for an attribute whose representation code follows its value (None: none)."""
+    def is_num(x):
+        return isinstance(x, (int, float)) and not isinstance(x, bool)
+    if kind == 'generic':
+        if not isinstance(cur, list) or not cur or any(isinstance(x, (list, dict)) for x in cur):
+            return None
+        if all(is_num(x) for x in cur):
+            return ['T%d' % i for i in range(len(cur))]
+        if all(isinstance(x, str) for x in cur):
+            return [12.5 + i for i in range(len(cur))]
+        return None
+    if kind == 'dtnum':
+        if isinstance(cur, dict) and '$dt' in cur:
+            return 12.5
+        if is_num(cur):
+            return {'$dt': '2011-02-03T04:05:06', 'tz': 0}
+        return None
+    if kind == 'reftext':
+        if isinstance(cur, str):
+            lns = [k for k in range(j) if ops[k]['t'] == 'long_name']
+            return {'$ref': lns[-1]} if lns else None
+        if isinstance(cur, dict) and '$ref' in cur:
+            return 'PLAIN TEXT NOW'
+    return None
+
+
 @st.composite
 def mutation(draw, spec, serial=0):
     ops = spec['lfs'][0]['ops']
     idx = [j for j, op in enumerate(ops) if op['t'] not in ('nfdata',)]
-    j = draw(st.sampled_from(idx))
+    free_code = [k for k in idx if any(a.kind in ('generic', 'dtnum', 'reftext') and 'v' in (ops[k].get('attrs') or {}).get(kw, {})
+                                       for kw, a in TYPES[ops[k]['t']]['attrs'].items())]
+    j = draw(st.sampled_from(free_code)) if free_code and draw(st.booleans()) else draw(st.sampled_from(idx))
     op = ops[j]
     kinds = []
     # renaming is unambiguous only when no other object of the kind shares the old name (copy numbers are fixed at
@@ -44,6 +73,16 @@ def mutation(draw, spec, serial=0):
                 if a.kind in ('num', 'fdoubl', 'text', 'ident') and not a.multi and k in (op.get('attrs') or {})]
     if settable:
         kinds += ['value', 'value']
+    # attributes without a fixed representation code: a value of ANOTHER kind (number <-> text <-> date-time <->
+    # object reference) must change the code written, whatever was written before
+    rekind = {}
+    for k, a in TYPES[op['t']]['attrs'].items():
+        if a.kind in ('generic', 'dtnum', 'reftext') and 'v' in (op.get('attrs') or {}).get(k, {}):
+            nv = other_kind_value(a.kind, op['attrs'][k]['v'], ops, j)
+            if nv is not None:
+                rekind[k] = nv
+    if rekind:
+        kinds += ['value-kind']
     origins = [k for k, o in enumerate(ops) if o['t'] == 'origin' and k < j]   # only origins that exist before the object
     if op['t'] != 'origin' and len(origins) >= 2:
         kinds.append('origin')
@@ -56,13 +95,16 @@ def mutation(draw, spec, serial=0):
     kinds += ['hdr-seq']
     if not kinds:
         return {'kind': 'none', 'op': j}
-    kind = draw(st.sampled_from(kinds))
+    kind = 'value-kind' if rekind and draw(st.integers(0, 3)) else draw(st.sampled_from(kinds))
     m = {'kind': kind, 'op': j}
     if kind == 'value':
         kw = draw(st.sampled_from(settable))
         a = TYPES[op['t']]['attrs'][kw]
         m['kw'] = kw
         m['v'] = draw(st.sampled_from(NUMBER_POOL)) if a.kind in ('num', 'fdoubl') else draw(st.sampled_from(TEXT_POOL))
+    elif kind == 'value-kind':
+        kw = draw(st.sampled_from(sorted(rekind)))
+        m.update(kind='value', kw=kw, v=rekind[kw], rekind=True)
     elif kind == 'rename':
         m['name'] = 'FRESH-' + str(serial)
     elif kind == 'data-same-type':
@@ -190,7 +232,7 @@ def apply_mutation_to_objects(built, spec, m):
     item = built.items[(0, m['op'])]
     op = spec['lfs'][0]['ops'][m['op']]
     if m['kind'] == 'value':
-        getattr(item, TYPES[op['t']]['attrs'][m['kw']].py).value = m['v']
+        getattr(item, TYPES[op['t']]['attrs'][m['kw']].py).value = model.to_python(m['v'], lambda k: built.items[(0, k)])
     elif m['kind'] == 'rename':
         item.name = m['name']
     elif m['kind'] == 'origin':
@@ -253,7 +295,7 @@ class C14(Property):
                  "pool; after every write the bytes are compared with those produced by a fresh process (pristine "
                  "zygote fork, cross-checked with a real subprocess) for the net specification")
     rule = ("cases: histories of 3-10 steps (build; write with drawn chunk sizes and row window; write again; mutate an "
-            "attribute value / object name / origin reference / channel data (same or other dtype and width) / cast "
+            "attribute value (same kind, or another kind for attributes without a fixed representation code) / object name / origin reference / channel data (same or other dtype and width) / cast "
             "dtype (set, cleared) / channel DIMENSION / header sequence number; high-compatibility write of an "
             "unrelated file; write with only part of the data dict) over 1-2 specifications drawn from pools {0, -0.0, "
             "0.0, False, 1, 1.0, True, 2, 2.0}, 8 strings (two of 128 and 200 characters), 3 names, named and unnamed "
@@ -273,7 +315,7 @@ class C14(Property):
         return {'fresh_process_queries': self.fresh.queries, 'subprocess_cross_checks': self.cross}
 
     def searches(self, ctx):
-        n = 320 if ctx.tier == 'quick' else 4800
+        n = 640 if ctx.tier == 'quick' else 6400
         return [('histories', histories(), n // ctx.nshards)]
 
     def run(self, case, ctx):
@@ -317,7 +359,7 @@ class C14(Property):
                     old_d = case['specs'][k]['lfs'][0]['ops'][m['op']]['data']
                     if (m['data']['dt'], m['data']['shape'][1:]) != (old_d['dt'], old_d['shape'][1:]):
                         swapped.add(k)
-                labels.append('mut:' + m['kind'])
+                labels.append('mut:' + m['kind'] + ('-kind' if m.get('rekind') else ''))
             elif do == 'hc-write':
                 r = B.build_and_write(HC_SPEC, ctx.path(), ctx.scratch)
                 labels.append('hc-write')
